@@ -185,6 +185,7 @@ type storeEnv struct {
 	valueOptionalFrom uint64
 	optLo, optHi      uint64 // an additional range of such ids (from an earlier crash)
 	crashDepth        int    // number of crashes this store directory went through
+	lossyFirstCrash   bool   // an earlier crash of this history lost or tore un-synced writes
 	wideKeys          int    // > 0: number of extra keys to draw from
 	compactBias       bool   // maintenance favours index compaction
 	emptyValuePct     int    // extra probability of empty values
@@ -649,6 +650,13 @@ func (e *storeEnv) verifyIndex(what string, n uint64) {
 func (e *storeEnv) idxViol(class, format string, args ...interface{}) {
 	if e.r.Sched != nil && e.r.Sched.MaxSameName("indexer") > 1 {
 		e.r.Finding(class, "C04:indexer-overlap-after-compaction", "two indexing goroutines ran concurrently on one index after CompactIndexes restarted it; then: "+format, args...)
+		e.r.EndRun()
+	}
+	if e.crashDepth >= 2 && e.lossyFirstCrash {
+		// the index (tbtree) never truncates its logs: entries of the timeline lost in
+		// the first crash that lie beyond the recovered extent stay in the files, and a
+		// second crash can resurrect them (recorded for C10, same root cause here)
+		e.r.Finding(class, "C10:stale-log-tail-after-crash", "second crash after a power loss that had dropped index writes; then: "+format+"\n  committed log: "+e.dumpLog(), args...)
 		e.r.EndRun()
 	}
 	e.r.Violation(class, "", format+"\n  committed log: "+e.dumpLog(), args...)
